@@ -745,6 +745,12 @@ impl TypeChecker {
                         }
                         Type::Tuple(tys) => todo.extend(tys),
                         Type::List(ty) => todo.push(ty),
+                        Type::ExternBlob(_, _, fields, args, _)
+                        | Type::Blob(_, _, fields, args)
+                        | Type::Enum(_, _, fields, args) => {
+                            todo.extend(fields.values().map(|(_, ty)| *ty));
+                            todo.extend(args);
+                        }
                         _ => {}
                     }
                 }
@@ -2082,6 +2088,12 @@ impl TypeChecker {
                 }
                 Type::Tuple(tys) => todo.extend(tys),
                 Type::List(ty) => todo.push(ty),
+                Type::ExternBlob(_, _, fields, args, _)
+                | Type::Blob(_, _, fields, args)
+                | Type::Enum(_, _, fields, args) => {
+                    todo.extend(fields.values().map(|(_, ty)| *ty));
+                    todo.extend(args);
+                }
                 _ => {}
             }
         }
